@@ -93,6 +93,23 @@ Theorem c02_alternative_unset_partial : forall o dv fuel0 root a l r sep path a1
 Proof. exact alternative_unset_is_empty. Qed.
 Print Assumptions c02_alternative_unset_partial.
 
+(* literal text: a string without a dollar sign is a constant, whatever else it contains *)
+Theorem c02_text_without_dollar_is_literal_partial : forall sep maxIdx nk esc s,
+  s <> "" -> mem_ascii "$"%char s = false -> parse_splice sep maxIdx nk esc s = inl (EConst s).
+Proof. exact text_without_dollar_is_literal. Qed.
+Print Assumptions c02_text_without_dollar_is_literal_partial.
+
+(* the escapes $$ and $}, and the shapes of the expansions *)
+Theorem c02_escape_examples :
+  parse_splice "." 1024 false false "$$" = inl (EConst "$")
+  /\ parse_splice "." 1024 false false "$}" = inl (EConst "}")
+  /\ parse_splice "." 1024 false false "a$$b$}c" = inl (EConst "a$b}c")
+  /\ parse_splice "." 1024 false false "$${x}" = inl (EConst "${x}")
+  /\ parse_splice "." 1024 false false "${x}" = inl (ERef [FName "x"] ".")
+  /\ parse_splice "." 1024 false false "${x:d}" = inl (EDefault (EConst "x") (EConst "d") ".").
+Proof. exact escape_examples. Qed.
+Print Assumptions c02_escape_examples.
+
 (* the hypotheses are met by concrete configurations: the model's reads of a small tree *)
 Theorem c02_examples :
   read_string demo_opts 60 demo_root "twice" (-1) = Ok "x-x"
